@@ -199,7 +199,7 @@ theorem gen_cmd_prune :
 /-- **regenerated obligation**: `desync verify` hands every invocation to the store's `Verify` with the worker
     count and the repair flag the user gave; no path returns success before that call -/
 theorem gen_cmd_verify_delegates :
-    Gen.cmdVerifyShape = ["call(ctx,opt.n,opt.repair,stderr)"] ∧
+    Gen.cmdVerifyShape = ["call(opt.n,opt.repair)"] ∧
     Gen.site_shape_cmdVerifyShape_found = true := by
   decide
 
